@@ -651,7 +651,10 @@ class CaseRun:
         from kernel import STEP_BUDGET
 
         nmax = max([len(g["nodes"]) for g in case["graphs"]] + [0])
-        budget = STEP_BUDGET + 5000 * nmax + 50 * nmax * nmax  # generous: it exists to catch non-termination
+        # measured on the pinned tree: <= 400 calls per node for the operations the deep scenarios use (they are
+        # chosen to be linear in the chain length), so 20 000 per node is a 50-fold margin and still finite: an
+        # operation that turns quadratic on a 1 200-node chain is reported as a liveness violation, not waited for
+        budget = STEP_BUDGET + 20_000 * nmax
         for r, rnd in enumerate(case["rounds"]):
             scripts = rnd["scripts"]
             # ---- scheduler for this round
